@@ -269,7 +269,7 @@ def run(tier, seed, pid='C06'):
     rep = Report(pid, tier, seed, 'model_checking')
     common.build_mmdump()
     mirs = [common.dump_mir('mimium_lang')[0], common.dump_mir('state_tree')[0]]
-    files = [f for f in common.corpus_files(['st', 'ct', 'cl', 'fx'])]
+    files = [f for f in common.corpus_files(['st', 'ct', 'cl', 'gn', 'fx'], tier, seed)]
     budget = 90 if quick else 400
     qto = 5000 if quick else 30000
     jobs = [('analysis', dict(cls=('checks.c06', 'SwapAnalysis'), path=f, mir_paths=mirs, steps=1, mode='inductive',
